@@ -110,6 +110,16 @@ add('C20',
     LAT_NOTE,
     "Coq proof (field over Q, uniqueness of the normal-equation solution) + exact-rational correspondence + oracle", "5/C20")
 
+add('C05',
+    "Coq theorems over Q: a valid fast match has >= min_match selected peaks, all with elevation >= min_weight, one index per selected peak, and its lattice is "
+    "the weighted least-squares fit (C06) of exactly those peaks; a peak on a lattice position is matched with its true indices for every tolerance > 0; a peak "
+    "half a cell off is rejected for tolerance^2 <= |a|^2/(4 max(1,|i|)); parallel/zero start vectors give Invalid (a value, not an exception); matching decisions "
+    "are translation invariant. Tie: the complete two-round fastmatch in exact rationals vs Matcher.fastmatch on the same floats.",
+    LAT_NOTE + "Robustness to 'about a pixel' of start error and 0.3 px noise is quantitative: sampled by the oracle, the theorems cover the exact-position and "
+    "half-cell cases. For rank-deficient matched index sets lstsq returns a minimum-norm solution where the model has none: there only well-formedness is compared. "
+    "Rotation covariance is sampled (rational rotations are not proved).",
+    "Coq proof (Q arithmetic, rounding lemmas, list induction) + exact-rational correspondence + oracle incl. adversarial stream", "5/C05")
+
 NOT_YET = "check not built yet in this round (work in progress; design in DESIGN.md section 5)"
 
 def main():
